@@ -518,9 +518,12 @@ struct Space {
                                 ds[0] = ds[1] = ds[2] = dw ? 2 : 1;
                                 c.sspace = dir ? 0 : 7;
                                 c.dspace = dir ? 7 : 0;
-                                (dir ? c.dst : c.src) = 0x20000100;
-                                (dir ? c.src : c.dst) = 0x0300;
-                                specials.push_back(c);
+                                // the burst may start at any unit-aligned address, not only at a multiple of the burst length
+                                for (u32 skew : {0u, 1u, 3u}) {
+                                    (dir ? c.dst : c.src) = 0x20000100 + skew * unit_bytes;
+                                    (dir ? c.src : c.dst) = 0x0300;
+                                    specials.push_back(c);
+                                }
                             }
                     }
                 }
